@@ -170,13 +170,15 @@ T["T5"] = (doc(
     + BIN("BNEG_T", DYN("N3", "false", 8, -16))          # 8*N - 16: negative for N < 2
     + BIN("BZERO_T", DYN("Q5", "false", 1, 0))
     + STR("SPOS_T", "<xtce:Variable>" + DYN("N3", "false", 8, 8) + '<xtce:LeadingSize sizeInBitsOfSizeTag="8"/></xtce:Variable>')
-    + BIN("BLK_T", "<xtce:DiscreteLookupList>" + DL(8, CMP("N3", "3", "&lt;")) + DL(3, CMP("N3", "3", "&gt;=")) + "</xtce:DiscreteLookupList>"),
-    params=[("N3", "N3_T"), ("Q5", "Q5_T"), ("BNEG", "BNEG_T"), ("BZERO", "BZERO_T"), ("SPOS", "SPOS_T"), ("BLK", "BLK_T"), ("TAIL", "U8_T")],
+    + BIN("BLK_T", "<xtce:DiscreteLookupList>" + DL(8, CMP("N3", "3", "&lt;")) + DL(3, CMP("N3", "3", "&gt;=")) + "</xtce:DiscreteLookupList>")
+    + BIN("BLAST_T", DYN("N3", "false", 8, 0)),           # byte-aligned, whole bytes, LAST field of its container
+    params=[("N3", "N3_T"), ("Q5", "Q5_T"), ("BNEG", "BNEG_T"), ("BZERO", "BZERO_T"), ("SPOS", "SPOS_T"), ("BLK", "BLK_T"), ("TAIL", "U8_T"), ("BLAST", "BLAST_T")],
     root_entries=[],
     children=cont("V0", ["N3", "Q5", "BNEG", "TAIL"], "CCSDSPacket", CMP("APID", "0"))
     + cont("V1", ["N3", "Q5", "BZERO", "TAIL"], "CCSDSPacket", CMP("APID", "1"))
     + cont("V2", ["N3", "Q5", "SPOS", "TAIL"], "CCSDSPacket", CMP("APID", "2"))
-    + cont("V3", ["N3", "Q5", "BLK", "TAIL"], "CCSDSPacket", CMP("APID", "3"))),
+    + cont("V3", ["N3", "Q5", "BLK", "TAIL"], "CCSDSPacket", CMP("APID", "3"))
+    + cont("V4", ["N3", "Q5", "BLAST"], "CCSDSPacket", CMP("APID", "4"))),
     6 + 3, "V0: 8 + (8N-16) + 8; V1: 8 + Q + 8; V2: 8 + (8N+8) + 8; V3: 8 + {8|3} + 8")
 
 # T6: calibrators on float encodings, criteria on a float raw value, context calibrators referring to their own raw value,
@@ -250,7 +252,7 @@ def _size_source(src, fixed_bits):
     if src == "fixed":
         return None, fixed_bits
     if src == "lookup":
-        return "<xtce:DiscreteLookupList>" + DL(16, CMP("LENF", "1")) + DL(fixed_bits, CMP("LENF", "8", "&gt;=")) + DL(40, CMPLIST(CMP("LENF", "2", ">="), CMP("LENF", "5", "!="))) + "</xtce:DiscreteLookupList>", None
+        return "<xtce:DiscreteLookupList>" + DL(16, CMP("LENF", "1")) + DL(fixed_bits, CMP("LENF", "8", "&gt;=")) + DL(40, CMPLIST(CMP("LENF", "2", ">="), CMP("LENF", "5", "!="))) + DL(8, CMP("LENF", "2", "&lt;")) + "</xtce:DiscreteLookupList>", None
     if src == "ref-raw-adj":
         return DYN("LENF", "false", 8, -8), None
     if src == "ref-cal":
@@ -291,7 +293,7 @@ def binary_template(src, off):
     elif src == "fixed-odd":
         size = "<xtce:FixedValue>13</xtce:FixedValue>"
     elif src == "lookup":
-        size = "<xtce:DiscreteLookupList>" + DL(16, CMP("LENF", "1")) + DL(13, CMP("LENF", "8", "&gt;=")) + DL(40, CMPLIST(CMP("LENF", "2", ">="), CMP("LENF", "5", "!="))) + "</xtce:DiscreteLookupList>"
+        size = "<xtce:DiscreteLookupList>" + DL(16, CMP("LENF", "1")) + DL(13, CMP("LENF", "8", "&gt;=")) + DL(40, CMPLIST(CMP("LENF", "2", ">="), CMP("LENF", "5", "!="))) + DL(8, CMP("LENF", "2", "&lt;")) + "</xtce:DiscreteLookupList>"
     elif src == "ref-raw-adj":
         size = DYN("LENF", "false", 3, 1)
     elif src == "ref-raw-of-cal":
